@@ -263,6 +263,41 @@ def tableLoop (toks : List Tok) (keys : List Tok) (consume : Bool) (entry : Tok 
 def tableLoopS (toks : List Tok) (keys : List Tok) (consume : Bool) (fuel : Nat) (entry : Tok → P) : P :=
   fun s => tableLoop toks keys consume entry fuel .falsy s
 
+/-- what an option loop does when its element parser finds nothing -/
+inductive OnFail where
+  | skip              -- shape 1: consume the offending token (`if self._curr: self._advance()`) and go on
+  | breakAfterRaise   -- shape 2: `self.raise_error(…); break`
+  | relyOnRaise       -- shape 3: `self.raise_error(…)` and nothing else — fine only if raise_error raises (IMMEDIATE)
+  deriving DecidableEq, Repr
+
+def skipTok (toks : List Tok) (s : St) : St := if (curr toks s.idx).isSome then bump 1 s else s
+
+def failThen (k : St → Res) (s1 : St) : Res :=
+  match failS s1 with
+  | (.ret _, s2) => k s2
+  | r => r
+
+/-- the option loops (`_parse_wrapped_options`, `_parse_copy_parameters`, `_parse_system_versioning_property`, …):
+      while self._curr and not self._match(close):
+          x = p();   if x: <use it>   else: <mode> -/
+def optionLoop (toks : List Tok) (close : Tok) (mode : OnFail) (p : P) : Nat → St → Res
+  | 0, s => (.diverged, s)
+  | fuel + 1, s =>
+    match curr toks s.idx with
+    | none => (.ret .truthy, s)
+    | some t =>
+      if t = close then (.ret .truthy, bump 1 s)
+      else
+        match p s with
+        | (.ret v, s1) =>
+          if v.isTruthy then optionLoop toks close mode p fuel s1
+          else
+            match mode with
+            | .skip => optionLoop toks close mode p fuel (skipTok toks s1)
+            | .breakAfterRaise => failThen (fun s2 => (.ret .truthy, s2)) s1
+            | .relyOnRaise => failThen (fun s2 => optionLoop toks close mode p fuel s2) s1
+        | r => r
+
 /-- combinator programs: closed descriptions of parse methods written in the idioms above -/
 inductive Comb where
   | eps                                   -- build a node, touch nothing
@@ -287,6 +322,7 @@ inductive Comb where
   | ifTok (ts : List Tok) (p q : Comb)    -- if self._match_set(ts): return p() ; return q()
   | tableLoop (keys : List Tok) (p : Comb) (consume : Bool)   -- dispatch-table loop, one body for every key
   | peekAt (k : Nat) (t : Tok) (g : Guard)      -- guard and self._tokens[self._index + k].token_type == t
+  | optionLoop (close : Tok) (p : Comb) (mode : OnFail)   -- while self._curr and not self._match(close): …
   deriving Repr
 
 /-- the semantics; `fuel` caps the number of iterations of each single loop activation -/
@@ -313,6 +349,7 @@ def run (toks : List Tok) (fuel : Nat) : Comb → P
   | .ifTok ts p q => ifTokS toks ts (run toks fuel p) (run toks fuel q)
   | .tableLoop keys p c => tableLoopS toks keys c fuel (fun _ => run toks fuel p)
   | .peekAt k t g => peekAt toks k t g
+  | .optionLoop close p mode => optionLoop toks close mode (run toks fuel p) fuel
 
 /-- never moves the cursor when it returns (syntactic sufficient condition) -/
 def Comb.still : Comb → Bool
@@ -352,6 +389,7 @@ def Comb.restoring : Comb → Bool
   | .ifTok _ p q => p.total && q.restoring
   | .tableLoop _ _ _ => false
   | .peekAt _ _ _ => true
+  | .optionLoop _ _ _ => false
 
 /-- a truthy result means at least one token was consumed (syntactic sufficient condition) -/
 def Comb.consuming : Comb → Bool
@@ -370,6 +408,7 @@ def Comb.consuming : Comb → Bool
   | .ifTok _ _ q => q.consuming
   | .tableLoop _ _ _ => false
   | .peekAt _ _ _ => false
+  | .optionLoop _ _ _ => false
 
 /-- no bare `_advance()`, and every `while True` loop body consumes input when it reports success -/
 def Comb.wf : Comb → Bool
@@ -382,6 +421,7 @@ def Comb.wf : Comb → Bool
   | .ifTok _ p q => p.wf && q.wf
   | .tableLoop _ p c => p.wf && (c || p.consuming)
   | .peekAt _ _ g => g == .strict
+  | .optionLoop _ p mode => p.wf && p.consuming && mode != .relyOnRaise
 
 /-- explicit step bound in the number `r` of remaining tokens -/
 def Comb.bound : Comb → Nat → Nat
@@ -397,6 +437,7 @@ def Comb.bound : Comb → Nat → Nat
   | .ifTok _ p q, r => p.bound r + q.bound r + 1
   | .tableLoop _ p _, r => (r + 1) * (p.bound r + 1)
   | .peekAt _ _ _, _ => 0
+  | .optionLoop _ p _, r => (r + 1) * (p.bound r + 1)
 
 /-- loop nesting depth = degree of the bound -/
 def Comb.depth : Comb → Nat
@@ -409,6 +450,7 @@ def Comb.depth : Comb → Nat
   | .ifTok _ p q => max p.depth q.depth
   | .tableLoop _ p _ => p.depth + 1
   | .peekAt _ _ _ => 0
+  | .optionLoop _ p _ => p.depth + 1
 
 /-- leading coefficient of the bound -/
 def Comb.coeff : Comb → Nat
@@ -424,6 +466,7 @@ def Comb.coeff : Comb → Nat
   | .ifTok _ p q => p.coeff + q.coeff + 1
   | .tableLoop _ p _ => p.coeff + 1
   | .peekAt _ _ _ => 0
+  | .optionLoop _ p _ => p.coeff + 1
 
 /-- `_parse_wrapped_csv(p, sep, optional)` = `_parse_wrapped(lambda: _parse_csv(p, sep), optional)` -/
 def Comb.wrappedCsv (p : Comb) (sep : Tok) (optional : Bool) : Comb := .wrapped (.csv p sep) optional
